@@ -108,9 +108,15 @@ TasksIn(v) ==
     [] Kind(v) \in {"tuple", "list"} -> Flat([i \in DOMAIN Kids(v) |-> TasksIn(Kids(v)[i])])
     [] Kind(v) \in {"fdict", "dict"} -> Flat([i \in DOMAIN Kids(v) |-> IF i % 2 = 1 THEN <<>> ELSE TasksIn(Kids(v)[i])])
     [] OTHER -> <<>>
+(* Python equality: True == 1 == 1.0 (and False == 0 == 0.0), so tasks that differ only in that way compare equal and count *)
+(* as one dependency (get_direct_dependencies collects into an ordered set); the first one found is kept.                 *)
+RECURSIVE Canon(_)
+Canon(v) == IF Kind(v) \in {"bool", "int", "float"}
+            THEN N("num", IF Atom(v) \in {"True", "1", "1.0"} THEN "1" ELSE IF Atom(v) \in {"False", "0", "0.0"} THEN "0" ELSE Atom(v), <<>>)
+            ELSE N(Kind(v), Atom(v), [i \in DOMAIN Kids(v) |-> Canon(Kids(v)[i])])
 RECURSIVE DedupSeq(_, _)
 DedupSeq(s, acc) == IF s = <<>> THEN acc
-                    ELSE DedupSeq(Tail(s), IF \E i \in DOMAIN acc : acc[i] = Head(s) THEN acc ELSE Append(acc, Head(s)))
+                    ELSE DedupSeq(Tail(s), IF \E i \in DOMAIN acc : Canon(acc[i]) = Canon(Head(s)) THEN acc ELSE Append(acc, Head(s)))
 DepsOf(t) == DedupSeq(Flat([i \in DOMAIN Kids(t) |-> TasksIn(Kids(t)[i])]), <<>>)
 
 (* ---- building a task from raw field values: the value the constructor yields, or a reject node ---- *)
